@@ -238,6 +238,7 @@ func runC17(e *Engine, r *Report) {
 	ruleRaftPredicates(e, r, "time", "dropRequestVote")
 	ruleCampaignPredicateUpper(e, r)
 	ruleDelayedRepack(e, r)
+	ruleResetProgress(e, r)
 }
 
 // c17Tables: node.tick advances every table clock on every path; gc reachable.
